@@ -323,6 +323,69 @@ def lk7(ctx, flavours):
     return out
 
 
+def fresh(ctx, flavours):
+    """an edge handed to a user callback is the one just read from the live list: between the node-iterator step that produced
+    the edge and the callback call that receives it no call runs that can walk further edges and run callbacks on them (a
+    recursive descent, a nested traversal) -- by the time it returns those callbacks may have removed the edge"""
+    from .core import term_calls
+    F, G = ctx.F, ctx.G()
+    out = []
+    bodies = _bodies(ctx, flavours)
+    # functions that (transitively) step a node iterator
+    steps = set()
+    cg = {}
+    for q, b in F.bodies.items():
+        cs = set()
+        for bi, t in calls_in(b):
+            if _is_node_next(F, t):
+                steps.add(q)
+            cs |= G.callees_of(b, t)
+        cg[q] = cs
+    ch = True
+    while ch:
+        ch = False
+        for q, cs in cg.items():
+            if q not in steps and cs & steps:
+                steps.add(q); ch = True
+    for b in bodies:
+        if '::node::algo::' not in b['q']:
+            continue
+        calls = dict(calls_in(b))
+        cb = {bi for bi, t in calls.items() if 'callback' in G.calls_user(b, t)}
+        if not cb:
+            continue
+        nx = {bi for bi, t in calls.items() if _is_node_next(F, t)}
+        trav = {bi for bi in cb if G.callees_of(b, calls[bi]) & steps}
+        cfg, pv = F.cfg(b), F.prov(b)
+        for c in sorted(cb):
+            t = calls[c]
+            if c in trav:
+                continue
+            roots = set()
+            for a in t['args']:
+                for x in term_calls(pv.of_operand(a)):
+                    if len(x) > 3 and x[3] in nx:
+                        roots.add(x[3])
+            if not roots:
+                continue
+            seen, todo, bad = set(), list(cfg.pred[c]), None
+            while todo and bad is None:
+                p_ = todo.pop()
+                if p_ in seen or p_ not in cfg.reach:
+                    continue
+                seen.add(p_)
+                if p_ in nx:
+                    continue
+                if p_ in trav:
+                    bad = p_
+                    break
+                todo.extend(cfg.pred[p_])
+            out.append(Obl('LIVE-EDGE', b['q'], t['sp'], 'callback receives the edge just read: %s' % callee_name(t), bad is None,
+                           'no traversal step between the iterator step and the callback' if bad is None else
+                           '%s at %s can walk further edges and run callbacks between the iterator step that read this edge and the callback that is handed it' % (callee_name(calls[bad]), F.where(b, bad))))
+    return out
+
+
 def lk_try(ctx, flavours):
     """the outcome of an operation must not depend on contention: no try_read / try_write / try_lock (a failed try is reported to
     the caller as a data outcome -- 'no such edge' -- that no sequential order of the operations explains)"""
